@@ -140,10 +140,10 @@ Proof. exact truncate_fract. Qed.
 Theorem C16_abs_spec : forall x, exists y, std1 "abs" x = okn y /\ y == Qabs x.
 Proof. exact abs_value. Qed.
 
-Theorem C16_min_spec : forall x y, std2 "min" x y = okn (mn x y).
+Theorem C16_min_spec : forall x y, exists m, std2 "min" x y = okn m /\ m == mn x y /\ (m = x \/ m = y).
 Proof. exact min_spec. Qed.
 
-Theorem C16_max_spec : forall x y, std2 "max" x y = okn (mx x y).
+Theorem C16_max_spec : forall x y, exists m, std2 "max" x y = okn m /\ m == mx x y /\ (m = x \/ m = y).
 Proof. exact max_spec. Qed.
 
 Theorem C16_minmax_lattice : forall x y z, mn x y == mn y x /\ mx x y == mx y x /\ mn (mn x y) z == mn x (mn y z) /\ mx (mx x y) z == mx x (mx y z) /\ mn x x == x /\ mx x x == x /\ mn x (mx x y) == x /\ mx x (mn x y) == x /\ mn x y <= x /\ mn x y <= y /\ x <= mx x y /\ y <= mx x y /\ (z <= x -> z <= y -> z <= mn x y) /\ (x <= z -> y <= z -> mx x y <= z) /\ (mn x y = x \/ mn x y = y) /\ (mx x y = x \/ mx x y = y).
